@@ -313,32 +313,11 @@ theorem locator_range (selOk : Bytes → Bool) (filt : Bytes → Feature → Boo
     exact ⟨natDigits_noAt a, by decide, by decide, natDigits_noAt b⟩
   exact (locator_location selOk filt seq _ _ hat hm (tryLocation_range a b ha hfa hb hfb)).2
 
-/-- FULL STATEMENT (false today, known finding K8A): "a string without `@` that is not a modifier
-and whose selector compiles is read as that selector".  Refuted by the INSDC feature key `5'UTR`
-(bytes 53 39 85 84 82): `tryLocation` is not wrapped in `pars.Exact`, so it accepts the numeric
-prefix `5` and ignores the rest; the string is read as the point 5 and `gts extract "5'UTR"`
-yields base 5 instead of the 5'UTR features (same for `3'UTR`, and `3..5xyz` is the range 3..5). -/
-theorem locator_selector_full_refuted :
-    ¬ ∀ (selOk : Bytes → Bool) (s : Bytes), (64 : UInt8) ∉ s → asModifier s = .error .fail →
-        selOk s = true → asLocator selOk s = .selector s := by
-  intro H
-  have h := H (fun _ => true) [53, 39, 85, 84, 82] (by decide)
-    (asModifier_err_of_first 53 _ (by decide) (by decide)) rfl
-  have h2 : (match asLocator (fun _ => true) [53, 39, 85, 84, 82] with
-      | .bareLocation (.point 4) => true | _ => false) = true := by decide
-  rw [h] at h2
-  exact absurd h2 (by decide)
-
-/-- the prefix behaviour of `tryLocation` itself: `3..5xyz` is accepted as the range `3..5` -/
-example : (match tryLocation [51, 46, 46, 53, 120, 121, 122] with
-    | .ok (.ranged 2 5 false false) => true | _ => false) = true := by decide
-
-/-- bare selector ↦ the matching features' regions, in table order — with the explicit guard that
-excludes exactly K8A: no prefix of the string parses as a point / range / complement location
-(`tryLocation s` fails).  Every selector that starts with a letter, `/` or any byte other than a
-digit, `<` and `c` satisfies the guard trivially; see `locator_selector_full_refuted` for what
-happens without it. -/
-theorem locator_selector_partial (selOk : Bytes → Bool) (filt : Bytes → Feature → Bool) (seq : Seq)
+/-- bare selector ↦ the matching features' regions, in table order.  `tryLocation s` fails exactly
+when `s` is not, as a whole, a point / range / complement location (`pars.Exact`, repair 03b944a
+of finding F9), so the hypotheses say: `s` is neither a modifier nor entirely a location, and
+its qualifier regexps compile. -/
+theorem locator_selector (selOk : Bytes → Bool) (filt : Bytes → Feature → Bool) (seq : Seq)
     (s : Bytes) (hs : (64 : UInt8) ∉ s) (hm : asModifier s = .error .fail)
     (hl : tryLocation s = .error .fail) (hok : selOk s = true) :
     asLocator selOk s = .selector s ∧
@@ -347,7 +326,42 @@ theorem locator_selector_partial (selOk : Bytes → Bool) (filt : Bytes → Feat
     rw [locator_precedence selOk s hs]; simp [asLocatorBare, hm, hl, hok]
   exact ⟨h, by rw [h]; rfl⟩
 
-/-- non-vacuity of the guard: the selector `gene` (bytes 103 101 110 101) -/
+/-- a location *prefix* does not make a location: a number followed by any byte that is not a
+digit or `.` (`5'UTR`, `3'UTR`, `12abc`, `5S_rRNA`, …) is rejected by `tryLocation` -/
+theorem number_prefix_not_location (n : Nat) (c : UInt8) (r : Bytes) (h0 : 0 < n)
+    (hf : n ≤ 9223372036854775807) (hc : isDigit c = false) (hc46 : c ≠ 46) :
+    tryLocation (natDigits n ++ c :: r) = .error .fail :=
+  tryLocation_number_prefix n c r h0 hf hc hc46
+
+/-- … hence such a string is read as a selector, at full strength (no hypothesis on
+`tryLocation` left): feature keys that start with a number select their features -/
+theorem locator_selector_number_prefix (selOk : Bytes → Bool) (filt : Bytes → Feature → Bool) (seq : Seq)
+    (n : Nat) (c : UInt8) (r : Bytes) (h0 : 0 < n) (hf : n ≤ 9223372036854775807)
+    (hc : isDigit c = false) (hc46 : c ≠ 46) (hs : (64 : UInt8) ∉ natDigits n ++ c :: r)
+    (hok : selOk (natDigits n ++ c :: r) = true) :
+    (asLocator selOk (natDigits n ++ c :: r)).apply filt seq =
+      (seq.feats.filter (filt (natDigits n ++ c :: r))).map fun f => f.loc.region := by
+  obtain ⟨d, ds, h3, hd⟩ := natDigits_cons n
+  have hm : asModifier (natDigits n ++ c :: r) = .error .fail := by
+    rw [h3]; exact asModifier_err_of_first d _ (isDigit_ne d 94 hd (by decide)) (isDigit_ne d 36 hd (by decide))
+  exact (locator_selector selOk filt seq _ hs hm (tryLocation_number_prefix n c r h0 hf hc hc46) hok).2
+
+/-- the witnesses of the repaired finding F9, on the model: `5'UTR`, `3'UTR`, `12abc` and
+`3..5xyz` are selectors, `5` and `3..5` are still locations -/
+example :
+    (match asLocator (fun _ => true) [53, 39, 85, 84, 82] with
+      | .selector [53, 39, 85, 84, 82] => true | _ => false) = true ∧
+    (match asLocator (fun _ => true) [51, 39, 85, 84, 82] with
+      | .selector [51, 39, 85, 84, 82] => true | _ => false) = true ∧
+    (match asLocator (fun _ => true) [49, 50, 97, 98, 99] with
+      | .selector [49, 50, 97, 98, 99] => true | _ => false) = true ∧
+    (match asLocator (fun _ => true) [51, 46, 46, 53, 120, 121, 122] with
+      | .selector [51, 46, 46, 53, 120, 121, 122] => true | _ => false) = true ∧
+    (match asLocator (fun _ => true) [53] with | .bareLocation (.point 4) => true | _ => false) = true ∧
+    (match asLocator (fun _ => true) [51, 46, 46, 53] with
+      | .bareLocation (.ranged 2 5 false false) => true | _ => false) = true := by decide
+
+/-- non-vacuity of `locator_selector`: the selector `gene` (bytes 103 101 110 101) -/
 example : (64 : UInt8) ∉ [103, 101, 110, 101] ∧
     (match asModifier [103, 101, 110, 101] with | .error .fail => true | _ => false) = true ∧
     (match tryLocation [103, 101, 110, 101] with | .error .fail => true | _ => false) = true := by decide
